@@ -354,7 +354,9 @@ func executePipe(t *testing.T, prop string, seed uint64, p *PipePlan) *core.Resu
 				k = *p.Only
 			}
 			for ei, cerr := range []error{nil, simnet.ErrReset} {
-				pr := ps.replay(nil, 0, k, cerr, nil, -1)
+				// the caller's buffer size rotates with the offset (a small buffer
+				// drains a pending partial record in several calls)
+				pr := ps.replay(nil, []int{0, 1, 7, 300}[(k+ei)%4], k, cerr, nil, -1)
 				res.Evals++
 				res.Fault([]string{simnet.CutEOF, simnet.CutRST}[ei])
 				what := fmt.Sprintf("transport %s after %d of %d bytes", []string{"EOF", "error"}[ei], k, len(ps.c))
